@@ -25,7 +25,7 @@ for d in sorted(glob.glob(os.path.join(ROOT, "seeded", "C*"))):
         "breaks": am.get("summary", ""),
         "needs_to_manifest": am.get("needs_to_manifest", ""),
         "files_touched": am.get("files_touched", []),
-        "origin": "fresh sub-agent given only the property text and a scratch git worktree of /repo under /tmp (round %s)" % ("2" if name.endswith("_2") else "1"),
+        "origin": "fresh sub-agent given only the property text and a scratch git worktree of /repo under /tmp (round %s)" % (name.split("_")[1] if "_" in name else "1"),
         "confirmed_by_me": {
             "how": "bin/seed_confirm.sh in the scratch worktree: demonstration test without the change, git apply, go build ./..., demonstration test with the change, "
                    "go test -vet=off ./app/... ./x/... ./tests/app/... with the demonstration moved away (compared with the known time-zone dependent failures)",
@@ -36,7 +36,8 @@ for d in sorted(glob.glob(os.path.join(ROOT, "seeded", "C*"))):
             "new_failures_in_existing_tests": int(m.group(4)) if m else None,
         },
         "checks_run_against_it": {
-            "how": "bin/seedtest.sh %s %s (git -C /repo apply patch.diff; bin/check %s --tier quick; git -C /repo checkout -- .)" % (name, prop, prop),
+            "how": ("bin/seedtest.sh %s %s (git -C /repo apply patch.diff; bin/check %s --tier quick; git -C /repo checkout -- .)" % (name, prop, prop)) if ("_" not in name or name.endswith("_2")) else
+                   ("bin/seedtest_iso.sh %s %s (private copies of /verif and of /repo's working tree; patch.diff applied to the copy; REPO=<copy> bin/check %s --tier quick; copies removed)" % (name, prop, prop)),
             "detected": bool(viol),
             "violation_line": viol[0].split("] ", 1)[-1] if viol else None,
             "failing_input_found": bool(viol) and "no-failing-input-found" not in viol[0],
